@@ -121,7 +121,8 @@ def _is_plus_one(e, var_show):
 def check_prefix(facts, chk):
     """accumulator discipline at the three sibling implementations"""
     def scan(fn):
-        b = facts.fn(fn)
+        from ..facts import fn_with_private_helpers
+        b = fn_with_private_helpers(facts, fn)      # an accumulator loop moved into a private helper stays visible
         eb = ExprBuilder(b, through_vars=False)
         accs = []
         for blk in b.blocks:
@@ -623,8 +624,213 @@ def check_writer(facts, chk, tier):
                evals=n_runs, sample=dict(shapes={str(k): v for k, v in shapes.items()}, runs=n_runs))
 
 
+def check_refska_new(facts, chk, rule, tier):
+    """RefSka::new over virtual reference FASTAs == specification: upper-cased contigs, contig names = first word of the
+    id, one RefKmer (k-mer, middle base, middle position, contig, strand flag) per N-free window in contig/position order,
+    and (repeat mask) exactly the absolute coordinates covered by windows of split k-mers occurring more than once."""
+    import itertools
+    from ..absint.interp import Interp, Panic, StrV
+    from ..absint.values import BV, Agg, RefV, Cell
+    from . import skiter
+    rf = [f['name'] for f in facts.adt(RS)['variants'][0]['fields']]
+    kf = [f['name'] for f in facts.adt('ska_ref::RefKmer')['variants'][0]['fields']]
+    k = 5
+    h = 2
+    refs = [['ACCACAGTTACCAC', 'acgtnacgta'], ['ACCAC'], ['ACG', 'ACCACACCAC', 'GT'], ['AAAAAAAA'], ['ACCAGNNCCAGTA', 'TACTGG'],
+            ['NACCAC', 'ACC', 'GTGGTN'], ['ACCACAC', 'N', 'CACAC']]
+    if tier == 'thorough':
+        refs += [[''.join(t), 'ACCAC'] for t in itertools.product('ACN', repeat=6)][::3]
+    bad = []
+    n = 0
+    for contigs in refs:
+        for rc in (0, 1):
+            for rep in (0, 1):
+                I = Interp(facts, {'IntT': 'u64'})
+                I.files = {'ref': ('fasta', [('c%d some description' % i, s, None) for i, s in enumerate(contigs)])}
+                n += 1
+                want_k = []
+                for c, s in enumerate(contigs):
+                    for (v, m, flag, pos) in skiter.spec(s, k, rc):
+                        want_k.append((v, m, pos, c, flag))
+                try:
+                    r = I.call_fn(RS + '::new', [BV(64, k), RefV(Cell(StrV(list('ref')), 'fn')), BV(1, rc), BV(1, 0), BV(1, rep)])
+                except Panic as e:
+                    if want_k:
+                        bad.append((contigs, rc, rep, 'panic: %s' % e.kind))
+                    continue
+                if not want_k:
+                    bad.append((contigs, rc, rep, 'accepted a reference without any split k-mer'))
+                    continue
+                out = dict(zip(rf, r.fields))
+                got_k = [tuple(dict(zip(kf, x.fields))[f].val for f in ('kmer', 'base', 'pos', 'chrom', 'rc')) for x in out['split_kmer_pos'].fields]
+                got_seq = [''.join(chr(b.val) for b in row.fields) for row in out['seq'].fields]
+                got_names = [''.join(x.chars) for x in out['chrom_names'].fields]
+                got_rep = [x.val for x in out['repeat_coors'].fields]
+                offs = [sum(len(x) for x in contigs[:c]) for c in range(len(contigs))]
+                cnt = {}
+                for v, m, pos, c, flag in want_k:
+                    cnt[v] = cnt.get(v, 0) + 1
+                cover = set()
+                if rep:
+                    for v, m, pos, c, flag in want_k:
+                        if cnt[v] > 1:
+                            cover |= set(range(offs[c] + pos - h, offs[c] + pos + h + 1))
+                why = None
+                if got_k != want_k:
+                    why = 'reference k-mers %s, specified %s' % (got_k[:4], want_k[:4])
+                elif [x.upper() for x in got_seq] != [s.upper() for s in contigs]:        # where the case is normalised is free (C04.case / C04.e2e decide the output)
+                    why = 'stored sequence %s' % got_seq
+                elif got_names != ['c%d' % i for i in range(len(contigs))]:
+                    why = 'contig names %s' % got_names
+                elif got_rep != sorted(cover):
+                    why = 'repeat coordinates %s, specified %s' % (got_rep, sorted(cover))
+                if why:
+                    bad.append((contigs, rc, rep, why))
+    key = rule + ':RefSka::new'
+    if bad:
+        chk.violation(rule, key, where=RS + '::new', evals=n, detail='%d of %d references differ; first: contigs %s rc=%d repeat_mask=%d: %s' % ((len(bad), n) + bad[0]))
+    else:
+        chk.ok(rule, key, RS + '::new', 'k-mer list (value, base, position, contig, strand), upper-cased sequence, contig names and repeat-mask coordinates == specification on %d (reference, strand mode, repeat mask) cases' % n, evals=n)
+
+
+def check_map(facts, chk, rule, tier):
+    """RefSka::map interpreted on small references x dictionaries: one mapped row per reference k-mer found in the
+    dictionary, in reference order, at (chrom, pos) of that k-mer, holding the dictionary's bases for every sample -
+    complemented (IUPAC complement) iff the reference k-mer was stored reverse-complemented."""
+    import itertools
+    from ..absint.interp import Interp, Panic, Nd2, StrV, MapV
+    from ..absint.values import BV, Agg, RefV, Cell, Opaque
+    MSD = 'merge_ska_dict::MergeSkaDict'
+    COMPL = dict(zip('ACGTRYKMSWBDHVN-', 'TGCAYRMKSWVHDBN-'))
+    rf = [f['name'] for f in facts.adt(RS)['variants'][0]['fields']]
+    kf = [f['name'] for f in facts.adt('ska_ref::RefKmer')['variants'][0]['fields']]
+    df = [f['name'] for f in facts.adt(MSD)['variants'][0]['fields']]
+    if sorted(kf) != ['base', 'chrom', 'kmer', 'pos', 'rc'] or sorted(df) != ['k', 'n_samples', 'names', 'rc', 'split_kmers']:
+        raise AnchorLost('RefKmer fields %s / MergeSkaDict fields %s' % (kf, df))
+    refk = [(11, 0, 2, 0), (12, 0, 3, 1), (13, 0, 5, 0), (11, 1, 2, 1), (14, 1, 4, 1)]      # (kmer, chrom, pos, rc); 11 occurs twice (repeat)
+    rows_all = {11: 'AR', 12: 'C-', 13: 'YK', 14: 'GN', 15: 'TT'}
+    bad = []
+    n = 0
+    keysets = [ks for m in range(0, 5) for ks in itertools.combinations(sorted(rows_all), m)]
+    if tier != 'thorough':
+        keysets = keysets[::2]
+    for ks in keysets:
+        for ns in (1, 2):
+            m = MapV()
+            for kk in ks:
+                m.d[('bv', 64, kk)] = (BV(64, kk), Cell(Agg('array', 0, [BV(8, ord(c)) for c in rows_all[kk][:ns]]), 'row'))
+            dv = dict(k=BV(64, 5), rc=BV(1, 1), n_samples=BV(64, ns), names=Agg('array', 0, [StrV(list('s%d' % i)) for i in range(ns)]), split_kmers=m)
+            dc = Cell(Agg('adt:' + MSD, 0, [dv[f] for f in df]), 'dict')
+
+            def rk(kmer, chrom, pos, rc):
+                d = dict(kmer=BV(64, kmer), base=BV(8, 0), pos=BV(64, pos), chrom=BV(64, chrom), rc=BV(1, rc))
+                return Agg('adt:ska_ref::RefKmer', 0, [d[f] for f in kf])
+            rv = dict(k=BV(64, 5), split_kmer_pos=Agg('array', 0, [rk(*x) for x in refk]), mapped_pos=Agg('array', 0, []),
+                      mapped_variants=Nd2([], 0), mapped_names=Agg('array', 0, []))
+            me = Cell(Agg('adt:' + RS, 0, [rv.get(f, Opaque(f)) for f in rf]), 'refska')
+            I = Interp(facts, {'IntT': 'u64'})
+            n += 1
+            try:
+                I.call_fn(RS + '::map', [RefV(me), RefV(dc)])
+            except Panic as e:
+                bad.append((ks, ns, 'panic: %s' % e.kind))
+                continue
+            out = dict(zip(rf, me.v.fields))
+            got_rows = [''.join(chr(x.val) for x in r) for r in out['mapped_variants'].rows]
+            got_pos = [(t.fields[0].val, t.fields[1].val) for t in out['mapped_pos'].fields]
+            got_names = [''.join(x.chars) for x in out['mapped_names'].fields]
+            want_rows, want_pos = [], []
+            for kmer, chrom, pos, rc in refk:
+                if kmer in ks:
+                    b = rows_all[kmer][:ns]
+                    want_rows.append(''.join(COMPL[c] for c in b) if rc else b)
+                    want_pos.append((chrom, pos))
+            if (got_rows, got_pos, got_names) != (want_rows, want_pos, ['s%d' % i for i in range(ns)]):
+                bad.append((ks, ns, 'rows %s at %s names %s; specified rows %s at %s' % (got_rows, got_pos, got_names, want_rows, want_pos)))
+    key = rule + ':map'
+    if bad:
+        chk.violation(rule, key, where=RS + '::map', evals=n, detail='%d of %d cases differ; first: dictionary k-mers %s, %d sample(s): %s' % ((len(bad), n) + bad[0]))
+    else:
+        chk.ok(rule, key, RS + '::map', 'one row per reference k-mer present in the dictionary, in reference order, at its (contig, position), bases complemented iff stored reverse-complemented (%d dictionary subsets x sample counts)' % n, evals=n)
+
+
+def check_pseudoalignment(facts, chk, rule, tier):
+    """RefSka::pseudoalignment interpreted (rayon modelled sequentially in index order) on small mapped references: for
+    every thread-count argument the writer returned at position s holds the alignment of sample s, i.e. column s of
+    mapped_variants applied at mapped_pos, whatever chunking scheme hands the writers to the closures."""
+    import itertools
+    from ..absint.interp import Interp, Panic, Nd2, StrV
+    from ..absint.values import BV, Agg, RefV, Cell, Opaque
+    fields = [f['name'] for f in facts.adt(RS)['variants'][0]['fields']]
+    need = {'k', 'seq', 'repeat_coors', 'ambig_mask', 'mapped_pos', 'mapped_variants', 'mapped_names'}
+    if not need <= set(fields):
+        raise AnchorLost('RefSka fields are %s' % fields)
+    k = 5
+    h = 2
+    lens = (7, 6)
+    offs = [0, 7]
+    total = sum(lens)
+    refbytes = [[128 + offs[c] + p for p in range(L)] for c, L in enumerate(lens)]
+    pos = [(0, 2), (0, 4), (1, 2), (1, 3)]
+    syms = 'ACGT-'
+    bad = []
+    n = 0
+    max_s = 7 if tier == 'thorough' else 5
+    for S in range(1, max_s + 1):
+        # column s: bases chosen so that every sample differs (sample s lacks position s % 4, others rotate through ACGT)
+        cols = []
+        for s in range(S):
+            cols.append([('-' if (i == s % 4 or (s >= 4 and i == (s + 1) % 4)) else syms[(i + s) % 4]) for i in range(len(pos))])
+        rows = [[BV(8, ord(cols[s][i])) for s in range(S)] for i in range(len(pos))]
+        for threads in ((1, 2, 3, 4, 8) if tier == 'thorough' else (1, 2, 3, 4)):
+            vals = dict(k=BV(64, k), seq=Agg('array', 0, [Agg('array', 0, [BV(8, b) for b in row]) for row in refbytes]),
+                        repeat_coors=Agg('array', 0, []), ambig_mask=BV(1, 0),
+                        mapped_pos=Agg('array', 0, [Agg('tuple', 0, [BV(64, c), BV(64, p)]) for c, p in pos]),
+                        mapped_variants=Nd2(rows, S), mapped_names=Agg('array', 0, [StrV(list('s%d' % s)) for s in range(S)]))
+            me = Cell(Agg('adt:' + RS, 0, [vals.get(f, Opaque(f)) for f in fields]), 'refska')
+            I = Interp(facts, {'IntT': 'u64'})
+            n += 1
+            try:
+                ws = I.call_fn(RS + '::pseudoalignment', [RefV(me), BV(64, threads)])
+                got = []
+                for w in ws.fields:
+                    wc = Cell(w, 'w')
+                    out = I.call_fn(AW + '::get_seq', [RefV(wc)])
+                    got.append([x.val for x in I.load(out).fields])
+            except Panic as e:
+                bad.append((S, threads, 'panic: %s' % e.kind, None))
+                continue
+            want = []
+            for s in range(S):
+                w_ = [45] * total
+                for i, (c, p) in enumerate(pos):
+                    if cols[s][i] != '-':
+                        for q in range(max(0, p - h), min(lens[c], p + h + 1)):
+                            w_[offs[c] + q] = refbytes[c][q]
+                for i, (c, p) in enumerate(pos):
+                    if cols[s][i] != '-':
+                        w_[offs[c] + p] = ord(cols[s][i])
+                want.append(w_)
+            if got != want:
+                wrong = [s for s in range(max(len(got), S)) if s >= len(got) or s >= S or got[s] != want[s]]
+                bad.append((S, threads, 'samples %s do not receive their own column' % wrong, (got, want)))
+    key = rule + ':pseudoalignment'
+    if bad:
+        S, threads, why, _ = bad[0]
+        chk.violation(rule, key, where=RS + '::pseudoalignment', evals=n,
+                      detail='%d of %d (samples, threads) cases differ; first: %d samples, threads=%d: %s' % (len(bad), n, S, threads, why))
+    else:
+        chk.ok(rule, key, RS + '::pseudoalignment',
+               'writer s holds the alignment of column s of mapped_variants for 1..%d samples and every thread-count argument tried (%d cases; rayon modelled as an index-ordered sequential schedule)' % (max_s, n), evals=n)
+
+
 def run(facts, chk, tier, only=None):
     chk.guard('C04.writer', 'C04.writer:run', lambda: check_writer(facts, chk, tier))
+    chk.guard('C04.map', 'C04.map:run', lambda: check_pseudoalignment(facts, chk, 'C04.map', tier))
+    chk.guard('C04.map', 'C04.map:run2', lambda: check_map(facts, chk, 'C04.map', tier))
+    chk.guard('C04.ref', 'C04.ref:run', lambda: check_refska_new(facts, chk, 'C04.ref', tier))
+    from . import e2e
+    chk.guard('C04.e2e', 'C04.e2e:run', lambda: e2e.check_map_e2e(facts, chk, 'C04.e2e', tier))
     chk.guard('C04.case', 'C04.case:run', lambda: check_case(facts, chk))
     chk.guard('C04.prefix', 'C04.prefix:run', lambda: check_prefix(facts, chk))
     chk.guard('C04.strand', 'C04.strand:run', lambda: check_strand(facts, chk))
